@@ -291,11 +291,12 @@ var headerNames = map[string]Header{
 func readHeader(line string) map[Header]int {
 	tokens := Explode(line, []rune{',', ';', '\t', ' '})
 	headers := make(map[Header]int)
-	for kHeader, vHeader := range headerNames {
-		for i, token := range tokens {
-			if token == kHeader {
+	// walk the columns in file order (not the name table in map order): several spellings
+	// name the same quantity, the first column that carries one of them is used
+	for i, token := range tokens {
+		if vHeader, ok := headerNames[token]; ok {
+			if _, exists := headers[vHeader]; !exists {
 				headers[vHeader] = i
-				break
 			}
 		}
 	}
